@@ -694,6 +694,33 @@ def unit_bounded_steps(tier=None, seed=0):
                                  "n": n})
         if out.shape != data.shape:
             problems.append({"step": "smooth_height", "what": "point count changed"})
+    # turning point: the farthest point, independent of a constant force offset (lagged force maximum)
+    for t in range(6):
+        n = 3000
+        z = np.concatenate([np.linspace(2e-6, -1e-6, n // 2), np.linspace(-1e-6, 2e-6, n - n // 2)])
+        lag = 60
+        contact = np.maximum(-np.roll(z, lag), 0)
+        f = 1e3 * contact ** 1.5 * 4 / 3 * np.sqrt(5e-6) / 0.75 + rng.normal(0, 1e-12, n)
+        idp = int(np.argmin(np.abs(z[:n // 2])))
+        ref = preproc.find_turning_point(z.copy(), f.copy(), idp)
+        for off in (2e-9, -2e-9, 2e-8, -2e-8):
+            got = preproc.find_turning_point(z.copy(), f + off, idp)
+            ne += 1
+            if got != ref:
+                problems.append({"step": "find_turning_point", "what": f"turning point {got} vs {ref} after adding a constant "
+                                                                     f"force offset {off}"})
+                break
+        # independent statement of the docstring: farthest point in normalised coordinates
+        x = z - z[idp]
+        x = np.where(x / x.min() < 0, 0, x / x.min()) if x.min() != 0 else x
+        y = f - np.average(f[:idp])
+        y = y / y.max()
+        y = np.where(y < np.std(y[:idp]), 0, y)
+        want = int(np.argmax(x ** 2 + y ** 2))
+        if ref != want:
+            problems.append({"step": "find_turning_point", "what": f"turning point {ref}, farthest point {want}"})
+        if problems:
+            break
     # recorded curves: column counts / point counts
     from . import indent_units as IU
     cur = IU._curve()
